@@ -27,7 +27,10 @@ def mergeDaySpec (y m d : Int) (ov : Overflow) : Out Int :=
 /-- `PlainDate::with` as the property states it. -/
 def mergeDateSpec (r : IsoDate) (p : PartialDate) (ov : Overflow) : Out IsoDate :=
   if p.isEmpty then .err .type
-  else if p.era ∨ p.eraYear.isSome then .err .type       -- the ISO calendar has no eras
+  -- the ISO calendar has no eras: an era with an era year names no era of this calendar (RangeError); an era or an
+  -- era year alone, or next to a year, is not a year designation (TypeError)
+  else if p.era ∧ p.eraYear.isSome ∧ p.year.isNone then .err .range
+  else if p.era ∨ p.eraYear.isSome then .err .type
   else do
     let y := p.year.getD r.year
     let m ← mergeMonthSpec r.month p.month p.monthCode ov
